@@ -146,7 +146,13 @@ def generate(seed: int, tier: str = "quick") -> dict:
         c["chunks"] = chunks
         descs["c:" + k] = c
     if "W0" in descs:
-        descs["c:W0"] = dict(descs["W0"], of="c:D0")
+        descs["c:W0"] = dict(descs["W0"], of="c:D0", chunked=rng.random() < 0.5)
+    # unseen data may arrive with another chunking than the training data
+    if rng.random() < 0.4:
+        other = space.draw_chunks(rng, tiny=tiny)
+        for k in ("c:N0", "c:NX0", "c:NY0"):
+            if k in descs:
+                descs[k]["chunks"] = other
     gen.sanitize_descs(descs)
     cfg.update(descs=descs, fit=fit, new=new, params=params, chunks=chunks)
     cfg["rot_params"] = None
